@@ -402,3 +402,55 @@ Example bridge_ex :
   scan (GetEarnedFeesSubspace (addr 8)) (earned_acc addr [115%N] 8) (render (earned_key addr [115%N]) (earned ex_s))
   = [(earned_key addr [115%N] 8, 95)].
 Proof. vm_compute. reflexivity. Qed.
+
+(* ------------------------------------------------------------------ *)
+(* conservation over the whole history, in money terms.
+   Every event has a fixed effect on the balances (TraceMoney.ev_delta); the module accounts start
+   empty and are not touched by plain bank sends; so the balance of a module account in a reachable
+   state is the sum of the effects of ALL events of the log.  With C01 (escrow = fees in flight +
+   recorded earnings) this is "everything earned is either still recorded or was withdrawn":
+     recorded earnings + fees of active requests = debits - taxes - refunds - withdrawals. *)
+From SVC Require Import Proofs.TraceMoney.
+
+Definition module_acct (x : Acct) : Prop := match x with User _ => False | _ => True end.
+
+Lemma init_module_balance h0 t0 f x : module_acct x -> bal (init h0 t0 f) x = 0.
+Proof.
+  intros Hx. unfold init, bal. cbn [bank].
+  assert (G : forall l m, get0 x m = 0 ->
+            get0 x (fold_left (fun m af => set (User (fst af)) (get0 (User (fst af)) m + snd af) m) l m) = 0).
+  { induction l as [|[a v] t IH]; intros m Hm; cbn [fold_left fst snd]; [exact Hm|].
+    apply IH. unfold get0. rewrite get_set_neq; [exact Hm|]. intros ->. exact Hx. }
+  apply G. reflexivity.
+Qed.
+
+Theorem module_ledger cfg s x : wf_cfg cfg -> Reach cfg s -> module_acct x ->
+  bal s x = evs_delta (log s) x.
+Proof.
+  intros Hcfg Hr Hx. induction Hr as [h0 t0 f H1 H2 H3|s o Hr IH Ho].
+  - rewrite init_module_balance by assumption. reflexivity.
+  - pose proof (inv_wd _ _ (Reach_Inv cfg s Hcfg Hr)) as Hwd.
+    unfold step. destruct (handle cfg s o) as [s'| |] eqn:E; cbn [fst]; try exact IH.
+    destruct (match o with OTransfer _ _ _ => true | _ => false end) eqn:K.
+    + destruct o; try discriminate. destruct (transfer_moves _ _ _ _ _ _ E) as (Hl & Hb).
+      rewrite Hl, Hb, IH. unfold into.
+      destruct x; try contradiction; cbn [eqb EqDec_Acct acct_eqb]; lia.
+    + destruct (only_events_move_money cfg s o s' Hwd E) as (d & Hd & Hb).
+      * intros f t a ->. discriminate K.
+      * rewrite Hd, Hb, evs_delta_app, IH. lia.
+Qed.
+
+(* C13_conservation *)
+Theorem conservation cfg s : wf_cfg cfg -> Reach cfg s ->
+  msum vid (earned s) + msum fee_active (reqs s) = evs_delta (log s) Escrow
+  /\ bal s FeeColl = evs_delta (log s) FeeColl
+  /\ (forall o, get0 o (own_earned s) = msum (owned_by s o) (earned s)).
+Proof.
+  intros Hcfg Hr. split; [|split].
+  - rewrite <- (module_ledger cfg s Escrow Hcfg Hr I). rewrite (escrow_backed cfg s Hcfg Hr). lia.
+  - exact (module_ledger cfg s FeeColl Hcfg Hr I).
+  - exact (proj2 (proj2 (owner_earnings_sum cfg s Hcfg Hr))).
+Qed.
+
+Example conservation_ex : evs_delta (log ex_s) Escrow = 285 /\ msum vid (earned ex_s) = 285.
+Proof. vm_compute. split; reflexivity. Qed.
